@@ -1,0 +1,15 @@
+//go:build verif
+
+package mytime
+
+// Contracts for the deductive checker in /verif (comment-only file).
+
+//vc:ghost var now int64
+//vc:spec func unixOf(t time.Time) int64
+
+// The clock of the run: strictly increasing over events (assumption of C13).
+//vc:func Now
+//vc:  trusted
+//vc:  nopanic
+//vc:  modifies now
+//vc:  ensures now > old(now) && unixOf(result) == now
